@@ -1251,7 +1251,7 @@ fn validate_challenge(val: &Validate, ty: &str, token: &str, ident: &str, acct_j
 				} else {
 					crate::tlsclient::Target::Tcp(t.trim_start_matches("tcp:").to_string())
 				};
-				match crate::tlsclient::handshake(&target, ident, &["acme-tls/1".to_string()], Duration::from_secs(5)) {
+				match crate::tlsclient::handshake_v(&target, ident, &["acme-tls/1".to_string()], Duration::from_secs(5), val.tls_max12) {
 					Err(e) => Err(format!("acme-tls/1 handshake with {target:?}: {e}")),
 					Ok(h) => {
 						if h.alpn.as_deref() != Some(b"acme-tls/1") {
